@@ -8,11 +8,12 @@ package dst
 // ---------------------------------------------------------------------------------------------
 // Decoration lists (decorations.go)
 //
-// View: content(d) = elements [0,len) of *d. A Decorations value owns its backing array: the
-// caller's argument slice lives in a different array (or is empty). The clauses say what the
-// property says (list content, argument neither modified nor retained) plus the ownership
-// invariant that carries it through sequences of calls; they do not prescribe whether an
-// implementation reuses its own storage or allocates.
+// View: content(d) = elements [0,len) of *d. The clauses say what the property says: list content,
+// argument neither modified nor retained. Append may extend the list's own storage in place and
+// therefore needs the argument to live elsewhere (owns); Prepend and Replace take any argument,
+// including a slice of the list itself (d.Replace(d.All()[1:]...)), and write nothing that existed
+// before the call — otherwise a copy of the list value held elsewhere (another node's Decs, an
+// earlier All() result passed back in) would change under a call on this one.
 
 //@ func (d *Decorations) Append
 //@ requires owns: len(decs) == 0 || cap(*d) == 0 || arr(*d) != arr(decs)
@@ -26,7 +27,6 @@ package dst
 //@ ensures others_untouched: forall a int :: (a != old(arr(*d)) || old(cap(*d)) == 0) && wasAllocated(a) ==> rowAt(string, a) == old(rowAt(string, a))
 
 //@ func (d *Decorations) Prepend
-//@ requires owns: len(decs) == 0 || cap(*d) == 0 || arr(*d) != arr(decs)
 //@ modifies *d, elems(string)
 //@ ensures length: len(*d) == old(len(*d)) + len(decs)
 //@ ensures prefix_is_arg: forall i int :: 0 <= i && i < len(decs) ==> (*d)[i] == old(decs[i])
@@ -34,17 +34,16 @@ package dst
 //@ ensures arg_unchanged: forall j int :: row(decs)[j] == old(row(decs)[j])
 //@ ensures arg_not_retained: len(decs) == 0 || arr(*d) != arr(decs)
 //@ ensures array_old_or_fresh: arr(*d) == old(arr(*d)) || fresh(arr(*d))
-//@ ensures others_untouched: forall a int :: a != old(arr(*d)) && wasAllocated(a) ==> rowAt(string, a) == old(rowAt(string, a))
+//@ ensures nothing_existing_written: forall a int :: wasAllocated(a) ==> rowAt(string, a) == old(rowAt(string, a))
 
 //@ func (d *Decorations) Replace
-//@ requires owns: len(decs) == 0 || cap(*d) == 0 || arr(*d) != arr(decs)
 //@ modifies *d, elems(string)
 //@ ensures length: len(*d) == len(decs)
 //@ ensures content_is_arg: forall i int :: 0 <= i && i < len(decs) ==> (*d)[i] == old(decs[i])
 //@ ensures arg_unchanged: forall j int :: row(decs)[j] == old(row(decs)[j])
 //@ ensures arg_not_retained: len(decs) == 0 || arr(*d) != arr(decs)
 //@ ensures array_old_or_fresh: arr(*d) == old(arr(*d)) || fresh(arr(*d))
-//@ ensures others_untouched: forall a int :: a != old(arr(*d)) && wasAllocated(a) ==> rowAt(string, a) == old(rowAt(string, a))
+//@ ensures nothing_existing_written: forall a int :: wasAllocated(a) ==> rowAt(string, a) == old(rowAt(string, a))
 
 //@ func (d *Decorations) Clear
 //@ modifies *d
